@@ -14,6 +14,7 @@ pub mod fxrate;
 pub mod param;
 pub mod srate;
 pub mod system;
+pub mod syscore;
 pub mod lfo;
 pub mod modsys;
 pub mod tweener;
@@ -41,6 +42,7 @@ pub fn gen(suite: &str, rng: &mut Rng, n: usize, thorough: bool, stats: &mut Sta
 		"srate" => srate::gen(rng, n, thorough, stats),
 		"final" => finalstage::gen(rng, n, thorough, stats),
 		"system" => system::gen(rng, n, thorough, stats),
+		"syscore" => syscore::gen(rng, n, thorough, stats),
 		"lfo" => lfo::gen(rng, n, thorough, stats),
 		"tweener" => tweener::gen(rng, n, thorough, stats),
 		"modsys" => modsys::gen(rng, n, thorough, stats),
@@ -76,6 +78,7 @@ pub fn run(suite: &str, ops: &[String]) -> Vec<String> {
 		"srate" => srate::run(ops),
 		"final" => finalstage::run(ops),
 		"system" => system::run(ops),
+		"syscore" => syscore::run(ops),
 		"lfo" => lfo::run(ops),
 		"tweener" => tweener::run(ops),
 		"modsys" => modsys::run(ops),
